@@ -71,6 +71,13 @@ def End.processOutgoing (e : End) (now : Nat) : Except Fail (End × List Nat) :=
         if seg.length > 0 then .ok (e2, seg)
         else e2.ackStep now
 
+/-- `BtpInner::timeout` (`Btp::timeout`, polled every 2 s by `Btp::wait_timeout`; when it answers
+`true` the GATT glue ends the session): `Session::is_timed_out(now, conn_idle_timeout_secs)` -
+a segment of ours has been awaiting its acknowledgement (`sent_at` = instant of our last
+transmission or of the last partial acknowledgement; `Instant::MAX` when nothing is outstanding)
+for more than 30 s -/
+def End.timeout (e : End) (now : Nat) : Bool := e.s.isTimedOut now connIdleTimeoutSecs
+
 def End.processIncoming (e : End) (data : List Nat) (now : Nat) : Except Fail End :=
   match e.s.processRx e.gattMtu data now with
   | .error f => .error f
@@ -164,7 +171,9 @@ namespace Spec
 
 /-- What the receiving end knows about the conversation, in protocol terms only. -/
 structure View where
-  /-- sequence number of the last segment accepted from the peer (`none`: nothing yet) -/
+  /-- sequence number of the last segment accepted from the peer (a `Nat`; before anything has been
+  accepted it is 255 at a responder, so that 0 is expected next, and 0 at an initiator: the handshake
+  response is the peer's segment number 0) -/
   lastSeq : Nat
   /-- negotiated window -/
   window : Nat
@@ -176,28 +185,71 @@ structure View where
   outstanding : Nat
   /-- bytes still missing from the message being reassembled (0 = none in progress) -/
   remaining : Nat
+  /-- negotiated segment size (header + payload of a full segment) -/
+  segSize : Nat
 deriving Repr, DecidableEq, Inhabited
+
+/-- The sequence numbers that are awaiting an acknowledgement: those of our `outstanding` most
+recently sent segments, counted backwards from `lastSent` in wrap-around (mod 256) arithmetic. -/
+def awaitingAck (v : View) : List Nat :=
+  (List.range v.outstanding).map (fun i => (v.lastSent + 256 - i) % 256)
+
+/-- a stand-alone acknowledgement: none of beginning / continue / ending, only an acknowledgement -/
+def isAckOnly (h : Hdr) : Bool := !h.beg && !h.cont && !h.fin && h.ack
+
+/-- the length the message still has to deliver, as seen by this segment: the announced length for
+a beginning segment, else what is missing from the message in progress -/
+def expected (v : View) (h : Hdr) : Nat := if h.beg then h.msgLen else v.remaining
+
+/-- "inconsistent flags" on a data segment (BTP framing rules; independent of the conversation
+apart from the negotiated segment size) -/
+def badFlags (v : View) (h : Hdr) (payload : List Nat) : Bool :=
+  -- a management opcode on a data segment
+  h.mgmt
+  -- a segment that is nothing: no beginning / continue / ending and no acknowledgement
+  || (!h.beg && !h.cont && !h.fin && !h.ack)
+  -- a stand-alone acknowledgement that carries data
+  || (isAckOnly h && payload.length > 0)
+  -- beginning and continue at once
+  || (h.beg && h.cont)
+  -- a segment that is not the ending one must fill the negotiated segment size
+  || (!isAckOnly h && !h.fin && h.len + payload.length != v.segSize)
+  -- a message that fits one segment must be sent as one (beginning = ending) segment
+  || (h.beg && !h.fin && h.len + h.msgLen ≤ v.segSize)
+
+/-- "inconsistent length" -/
+def badLength (v : View) (h : Hdr) (payload : List Nat) : Bool :=
+  -- a beginning segment inside a message
+  (h.beg && v.remaining > 0)
+  -- a continue / ending segment outside a message (with or without data)
+  || (!h.beg && !isAckOnly h && v.remaining == 0)
+  -- more data than announced
+  || (expected v h < payload.length)
+  -- ending segment before the announced length is reached
+  || (h.fin && expected v h > payload.length)
+  -- the announced length is reached by a segment that is not the ending segment
+  || (!h.fin && payload.length > 0 && expected v h == payload.length)
 
 /-- The four classes of protocol violation named by the property, on a decoded data segment:
 wrong sequence number; window overrun; acknowledgement of something never sent (or already
-acknowledged); inconsistent length or flags. -/
+acknowledged); inconsistent length or flags. Written from the BTP rules over the protocol-level
+`View`; `segment_refused_iff` (Props/C18.lean) proves that the code refuses a data segment with
+`InvalidData` exactly in these cases or when the receive buffer has no room (`noRoom`). -/
 def mustReject (v : View) (h : Hdr) (payload : List Nat) : Bool :=
   -- wrong sequence number
-  (h.seqNum ≠ (v.lastSeq + 1) % 256)
-  -- window overrun
+  (h.seqNum != (v.lastSeq + 1) % 256)
+  -- window overrun: the peer already has `window` segments that we have not acknowledged
   || (v.unackedRx ≥ v.window)
-  -- acknowledgement of something that is not outstanding
-  || (h.ack && wrapSub v.lastSent h.ackNum ≥ v.outstanding)
-  -- a beginning segment inside a message
-  || (h.beg && v.remaining > 0)
-  -- data outside a message
-  || (!h.beg && v.remaining = 0 && payload.length > 0)
-  -- more data than announced
-  || ((if h.beg then h.msgLen else v.remaining) < payload.length)
-  -- ending segment before the announced length is reached
-  || (h.fin && (if h.beg then h.msgLen else v.remaining) > payload.length)
-  -- the announced length is reached by a segment that is not the ending segment
-  || (!h.fin && payload.length > 0 && (if h.beg then h.msgLen else v.remaining) = payload.length)
+  -- acknowledgement of a sequence number that is not awaiting one (never sent, or acknowledged before)
+  || (h.ack && !(awaitingAck v).contains h.ackNum)
+  || badFlags v h payload
+  || badLength v h payload
+
+/-- Not a protocol violation but a resource limit: the receive buffer (capacity two maximal
+messages; `free` bytes left) cannot take the segment - two length bytes in front of a new non-empty
+message plus the payload. Refused with the same error. -/
+def noRoom (free : Nat) (h : Hdr) (payload : List Nat) : Bool :=
+  free < (if h.beg && h.msgLen > 0 then 2 else 0) + payload.length
 
 /-- Reassembly of accepted data segments: the message in progress and the completed messages. -/
 structure Reasm where
